@@ -852,6 +852,9 @@ func main() {
 	}
 	allStrings("+-0123456789 x", l1, addS)
 	allStrings("+-01 ", l2, addS)
+	if r.Thorough() {
+		allStrings("+-019 x_.", 6, addS)
+	}
 	for _, s := range boundaryStrings() {
 		addS(s)
 	}
